@@ -1766,4 +1766,216 @@ theorem valNe_self (v : V) (hw : wfVal v = true) (hn : noNaN v = true) : valNe v
       rw [atomNe_self x (by simpa [cmpAtom] using hc) (by simpa [noNaN] using hnn)] at hne
       exact absurd hne (by simp)
 
+
+theorem mem_keys_of_mem_toList : ∀ (fs : Fields) (k : String) (v : V), (k, v) ∈ fs.toList → k ∈ fs.keys
+  | .nil, _, _, h => by simp [Fields.toList] at h
+  | .cons k1 v1 r1, k, v, h => by
+    simp only [Fields.toList, List.mem_cons] at h
+    simp only [Fields.keys, List.mem_cons]
+    rcases h with h | h
+    · cases h; exact Or.inl rfl
+    · exact Or.inr (mem_keys_of_mem_toList r1 k v h)
+
+/-- with distinct (selected) labels, every selected entry is the one `getattr` finds. -/
+theorem get?_of_nodup (p : String → Bool) : ∀ (fs : Fields) (k : String) (v : V),
+    (fs.keys.filter p).Nodup → (k, v) ∈ fs.toList → p k = true → fs.get? k = some v
+  | .nil, _, _, _, h, _ => by simp [Fields.toList] at h
+  | .cons k0 v0 r, k, v, hnd, h, hp => by
+    simp only [Fields.toList, List.mem_cons] at h
+    unfold Fields.get?
+    by_cases hk : k0 = k
+    · subst hk
+      rw [if_pos rfl]
+      rcases h with h | h
+      · cases h; rfl
+      · exfalso
+        simp only [Fields.keys, List.filter_cons, hp, if_true, List.nodup_cons] at hnd
+        apply hnd.1
+        rw [List.mem_filter]
+        exact ⟨mem_keys_of_mem_toList r _ _ h, hp⟩
+    · rw [if_neg hk]
+      rcases h with h | h
+      · cases h; exact absurd rfl hk
+      · apply get?_of_nodup p r k v _ h hp
+        simp only [Fields.keys, List.filter_cons] at hnd
+        split at hnd
+        · exact (List.nodup_cons.mp hnd).2
+        · exact hnd
+
+theorem toList_length : ∀ fs : Fields, fs.toList.length = fs.length
+  | .nil => rfl
+  | .cons _ _ r => by simp [Fields.toList, Fields.length, toList_length r]
+
+theorem mem_vals_of_mem_toList : ∀ (fs : Fields) (kv : String × V), kv ∈ fs.toList → kv.2 ∈ fs.vals
+  | .nil, _, h => by simp [Fields.toList] at h
+  | .cons _ _ r, kv, h => by
+    simp only [Fields.toList, List.mem_cons] at h
+    simp only [Fields.vals, List.mem_cons]
+    rcases h with rfl | h
+    · exact Or.inl rfl
+    · exact Or.inr (mem_vals_of_mem_toList r kv h)
+
+theorem neDict_self (fs : Fields) (hk : fs.keys.Nodup) (hv : fs.vals.all wfVal = true)
+    (hn : noNaNF fs = true) : neDict fs fs = false := by
+  unfold neDict
+  simp only [ne_eq, not_true_eq_false, if_false]
+  rw [Bool.eq_false_iff]
+  intro hany
+  rw [List.any_eq_true] at hany
+  obtain ⟨kv, hkv, hne⟩ := hany
+  have hg : fs.get? kv.1 = some kv.2 :=
+    get?_of_nodup (fun _ => true) fs kv.1 kv.2 (by simpa using hk) hkv rfl
+  rw [hg] at hne
+  simp only at hne
+  have hm := mem_vals_of_mem_toList fs kv hkv
+  rw [valNe_self kv.2 (List.all_eq_true.mp hv _ hm) (noNaNF_vals fs hn _ hm)] at hne
+  exact absurd hne (by simp)
+
+theorem all_close_self (t : Tol) (hr : 0 ≤ t.rtol) (ha : 0 ≤ t.atol) (l : List Num)
+    (h : ∀ x ∈ l, ∃ q, x = Num.fin q) : bcastAll (Num.close t) l l = .ok true :=
+  bcastAll_self _ l (fun x hx => by obtain ⟨q, rfl⟩ := h x hx; exact close_self t hr ha q)
+
+theorem all_exact_self (l : List Num) (h : ∀ x ∈ l, ∃ q, x = Num.fin q) :
+    bcastAll (fun a b => !(a.ne b)) l l = .ok true :=
+  bcastAll_self _ l (fun x hx => by obtain ⟨q, rfl⟩ := h x hx; simp [Num.ne])
+
+mutual
+/-- `v != v` is `False` for every well-formed NaN-free value (any nesting of compounds, any
+array / dict / list sizes), for any non-negative tolerances. -/
+theorem neV_self (t : Tol) (hr : 0 ≤ t.rtol) (ha : 0 ≤ t.atol) :
+    ∀ v : V, wf v = true → noNaN v = true → neV t v v = .ok false
+  | .atom a, hw, hn => by
+    show Except.ok (atomNe a a) = Except.ok false
+    rw [atomNe_self a hw (by simpa [noNaN] using hn)]
+  | .node i k fs, hw, hn => by
+    simp only [noNaN] at hn
+    cases k with
+    | region c =>
+      simp only [wf, Bool.and_eq_true, decide_eq_true_eq] at hw
+      have hl : eqLoop t (cmpKeys c) fs fs = .ok true := by
+        apply eqLoop_all
+        intro kv hkv hk
+        refine ⟨kv.2, get?_of_nodup _ fs kv.1 kv.2 hw.1 hkv (by simpa using hk), ?_⟩
+        exact loop_self t hr ha (cmpKeys c) fs hw.2 hn kv hkv hk
+      simp [neV, isInstance_self, hl]
+    | pixcoord =>
+      simp only [wf] at hw
+      simp only [neV, nePix]
+      split at hw
+      · rename_i x y hx hy
+        rw [hx, hy]
+        have hxn := noNaNF_get? fs "x" _ hn hx
+        have hyn := noNaNF_get? fs "y" _ hn hy
+        cases x with
+        | nan => simp [noNaN, atomIsNaN] at hxn
+        | fin qx =>
+          cases y with
+          | nan => simp [noNaN, atomIsNaN] at hyn
+          | fin qy =>
+            simp [coordList, bcastAll, close_self t hr ha]
+            rfl
+      · rename_i i1 xs i2 ys hx hy
+        rw [hx, hy]
+        simp only [Bool.and_eq_true] at hw
+        have hxn := noNaNF_get? fs "x" _ hn hx
+        have hyn := noNaNF_get? fs "y" _ hn hy
+        simp only [noNaN] at hxn hyn
+        simp only [Option.bind_some, coordList, ne_eq, not_true_eq_false, if_false]
+        rw [all_close_self t hr ha _ (nums_fin xs hw.1 hxn), all_close_self t hr ha _ (nums_fin ys hw.2 hyn)]
+        rfl
+      · simp at hw
+    | quantity =>
+      simp only [wf, Bool.and_eq_true, Fields.getD] at hw
+      simp only [neV, neQty, qprod]
+      cases hv : fs.get? "value" with
+      | none => rw [hv] at hw; simp [isNumAtom] at hw
+      | some v =>
+        cases hf : fs.get? "factor" with
+        | none => rw [hf] at hw; simp [isNumAtom] at hw
+        | some f =>
+          rw [hv, hf] at hw
+          have hvn := noNaNF_get? fs "value" _ hn hv
+          have hfn := noNaNF_get? fs "factor" _ hn hf
+          cases v with
+          | node _ _ _ => simp [isNumAtom] at hw
+          | atom av =>
+            cases f with
+            | node _ _ _ => simp [isNumAtom] at hw
+            | atom af =>
+              cases av <;> try (simp [isNumAtom] at hw)
+              cases af <;> try (simp [isNumAtom] at hw)
+              rename_i x y
+              cases x with
+              | nan => simp [noNaN, atomIsNaN] at hvn
+              | fin qx =>
+                cases y with
+                | nan => simp [noNaN, atomIsNaN] at hfn
+                | fin qy => simp [numOf, Num.mul, Num.ne]
+    | skycoord =>
+      simp only [wf, Bool.and_eq_true] at hw
+      simp only [neV, neSky, ne_eq, not_true_eq_false, if_false]
+      have hlon : ∀ x ∈ arrOf (fs.get? "lon"), ∃ q, x = Num.fin q := by
+        cases hg : fs.get? "lon" with
+        | none => simp [arrOf]
+        | some v =>
+          have hw1 := hw.1
+          rw [hg] at hw1
+          cases v with
+          | atom _ => simp [wfArr] at hw1
+          | node j kk gs =>
+            cases kk <;> try (simp [wfArr] at hw1)
+            have := noNaNF_get? fs "lon" _ hn hg
+            exact nums_fin gs (by simpa [wfArr] using hw1) (by simpa [noNaN] using this)
+      have hlat : ∀ x ∈ arrOf (fs.get? "lat"), ∃ q, x = Num.fin q := by
+        cases hg : fs.get? "lat" with
+        | none => simp [arrOf]
+        | some v =>
+          have hw2 := hw.2
+          rw [hg] at hw2
+          cases v with
+          | atom _ => simp [wfArr] at hw2
+          | node j kk gs =>
+            cases kk <;> try (simp [wfArr] at hw2)
+            have := noNaNF_get? fs "lat" _ hn hg
+            exact nums_fin gs (by simpa [wfArr] using hw2) (by simpa [noNaN] using this)
+      rw [all_exact_self _ hlon, all_exact_self _ hlat]
+      rfl
+    | dict =>
+      simp only [wf, Bool.and_eq_true, decide_eq_true_eq] at hw
+      simp [neV, neDict_self fs hw.1 hw.2 hn]
+    | rmeta =>
+      simp only [wf, Bool.and_eq_true, decide_eq_true_eq] at hw
+      simp [neV, neDict_self fs hw.1 hw.2 hn]
+    | rvisual =>
+      simp only [wf, Bool.and_eq_true, decide_eq_true_eq] at hw
+      simp [neV, neDict_self fs hw.1 hw.2 hn]
+    | list =>
+      simp only [wf] at hw
+      have := valNe_self (.node 0 .list fs) (by simpa [wfVal] using hw) (by simpa [noNaN] using hn)
+      simp only [neV]
+      have h2 : valNe (.node 0 .list fs) (.node i .list fs) = valNe (.node 0 .list fs) (.node 0 .list fs) := rfl
+      rw [h2, this]
+    | array =>
+      simp only [wf] at hw
+      simp only [neV]
+      rw [all_exact_self _ (nums_fin fs hw hn)]
+      rfl
+    | regions => simp [wf] at hw
+theorem loop_self (t : Tol) (hr : 0 ≤ t.rtol) (ha : 0 ≤ t.atol) (keys : List String) :
+    ∀ fs : Fields, wfF keys fs = true → noNaNF fs = true →
+      ∀ kv ∈ fs.toList, kv.1 ∈ keys → neV t kv.2 kv.2 = .ok false
+  | .nil, _, _, kv, h, _ => by simp [Fields.toList] at h
+  | .cons k v r, hw, hn, kv, h, hk => by
+    simp only [wfF, Bool.and_eq_true, Bool.or_eq_true, Bool.not_eq_true'] at hw
+    simp only [noNaNF, Bool.and_eq_true] at hn
+    simp only [Fields.toList, List.mem_cons] at h
+    rcases h with rfl | h
+    · rcases hw.1 with hc | hc
+      · simp only at hk
+        have : keys.contains k = true := by simpa using hk
+        rw [this] at hc; cases hc
+      · exact neV_self t hr ha v hc hn.1
+    · exact loop_self t hr ha keys r hw.2 hn.2 kv h hk
+end
+
 end RegionsVerif.Props.C16
